@@ -178,6 +178,44 @@ EXEC_EXPRS = ['(exec "true")', '(exec "false")', '(exec "no-such-program-xyz")',
               '(trigger "sleep" "70")', '(trigger "no-such-program-xyz")', '(trigger "true")', '(trigger 5)', '(trigger "sh" "-c" "sleep 70; echo late")']
 
 
+def gen_deep_unit(rng):
+    """Expressions nested as deep as the property allows (<= 64), built from one wrapper repeated: the cost of evaluating them
+    must not explode with the depth (each level selects, falls through to, or hands on its one interesting argument)."""
+    d = rng.choice((20, 30, 48, 60, 64))
+    w = rng.choice(("default", "default-last", "if", "if-cond", "pipe", "not", "set", "define", "map", "push", "and", "or_else", "concat"))
+    e = ".k%d" % d if w in ("default", "default-last", "or_else") else ".v"
+    for i in range(d - 1, -1, -1):
+        if w == "default":
+            e = "(default .k%d %s)" % (i, e)
+        elif w == "or_else":
+            e = "(or_else .k%d .j%d %s)" % (i, i, e)
+        elif w == "default-last":
+            e = "(default %s .k%d)" % (e, i)
+        elif w == "if":
+            e = "(? (null? .nosuch) .k%d %s)" % (i, e) if i % 2 else "(? (number? .v) %s .k%d)" % (e, i)
+        elif w == "if-cond":
+            e = "(? (number? %s) .v .nosuch)" % e
+        elif w == "pipe":
+            e = "(| . %s)" % e
+        elif w == "not":
+            e = "(not %s)" % e
+        elif w == "set":
+            e = "(set \"x%d\" %s (default :x%d .v))" % (i % 3, e, i % 3)
+        elif w == "define":
+            e = "(define \"m%d\" %s (default @m%d .v))" % (i % 3, e, i % 3)
+        elif w == "map":
+            e = "(first (map (push [] .) %s))" % e.replace(".v", "^" * 0 + ".v")
+        elif w == "push":
+            e = "(first (push [] %s))" % e
+        elif w == "and":
+            e = "(and true %s)" % e if i else "(and true (number? %s))" % e
+        else:
+            e = "(concat \"\" %s)" % e if i else "(concat \"\" (stringify %s))" % e
+    rec = {"v": 7, "k%d" % d: 7}
+    return {"kind": "expr", "pos": rng.choice(("select", "filter", "sort", "group")), "exprs": [e], "funcs": ["deep:" + w], "deep": True,
+            "input": (jm.dumps(rec) + "\n" + jm.dumps(rec)).encode("utf-8"), "policy": rng.choice(POLICIES)}
+
+
 def gen_exec_unit(rng):
     """`exec` with a fixed list of harmless commands: whatever the child does with its two pipes and its exit status, jawk
     comes back with a value or nothing."""
@@ -258,7 +296,7 @@ def worker(ctx):
                 st.count("stopped_by_deadline")
                 break
             r = ctx.rng.random()
-            unit = gen_bytes_unit(ctx.rng) if r < 0.3 else gen_matrix_unit(ctx.rng) if r < 0.42 else gen_exec_unit(ctx.rng) if r < 0.425 else gen_expr_unit(ctx.rng)
+            unit = gen_bytes_unit(ctx.rng) if r < 0.3 else gen_matrix_unit(ctx.rng) if r < 0.42 else gen_exec_unit(ctx.rng) if r < 0.425 else gen_deep_unit(ctx.rng) if r < 0.435 else gen_expr_unit(ctx.rng)
             if unit["kind"] == "expr" and ctx.debug_drv is not None and ctx.rng.random() < 0.35:
                 unit["debug"] = True
             run_unit(ctx, unit)
